@@ -50,11 +50,12 @@ func init() {
 		ruleORD5(w, r)
 		ruleORD6(w, r)
 		ruleORD8(w, r)
-		ruleCDC13(w, r) // a vector acknowledged while a snapshot ran keeps its metadata across the restart
-		ruleORD12(w, r) // a write acknowledged right after a snapshot never precedes older shadow writes in the log
-		ruleCDC14(w, r) // a vector added while a snapshot runs is in the saved map and the saved nodes, or in neither
-		ruleORD14(w, r) // a write acknowledged after Close would be in no log
-		ruleCDC15(w, r) // a link acknowledged during a snapshot is applied once, not twice
+		ruleCDC13(w, r)   // a vector acknowledged while a snapshot ran keeps its metadata across the restart
+		ruleORD12(w, r)   // a write acknowledged right after a snapshot never precedes older shadow writes in the log
+		ruleCDC14(w, r)   // a vector added while a snapshot runs is in the saved map and the saved nodes, or in neither
+		ruleORD14(w, r)   // a write acknowledged after Close would be in no log
+		ruleCDC15(w, r)   // a link acknowledged during a snapshot is applied once, not twice
+		ruleTBLwire(w, r) // what a snapshot or the log holds is read back under the names it was written with
 	})
 }
 
@@ -86,13 +87,16 @@ func init() {
 		ruleCDC9(w, r)  // a compaction re-emits every edge and every key-value pair
 		ruleCDC11(w, r) // index configuration durations survive the journal unchanged
 		ruleSIBnumtypes(w, r)
-		ruleCDC12(w, r)      // the snapshot carries every node, soft-deleted ones included
-		ruleCDC13(w, r)      // replay completes a node the snapshot captured without its metadata
-		ruleORD12(w, r)      // clean restart: the newest acknowledged value wins, also for writes that raced the end of a snapshot
-		ruleGRDasyncrm(w, r) // drop, re-create, add under one name: the new arena is not deleted by the old drop
-		ruleJRN6(w, r)       // a refused create does not mask a later valid one on replay
-		ruleCDC14(w, r)      // the snapshot is a consistent cut of node slice and id map
-		ruleCDC16(w, r)      // an acknowledged record is one the next start can read
+		ruleCDC12(w, r)        // the snapshot carries every node, soft-deleted ones included
+		ruleCDC13(w, r)        // replay completes a node the snapshot captured without its metadata
+		ruleORD12(w, r)        // clean restart: the newest acknowledged value wins, also for writes that raced the end of a snapshot
+		ruleGRDasyncrm(w, r)   // drop, re-create, add under one name: the new arena is not deleted by the old drop
+		ruleJRN6(w, r)         // a refused create does not mask a later valid one on replay
+		ruleCDC14(w, r)        // the snapshot is a consistent cut of node slice and id map
+		ruleCDC16(w, r)        // an acknowledged record is one the next start can read
+		ruleGRDshardhash(w, r) // a data directory written by another build is read back whole: the node placement function is part of the snapshot format
+		ruleTBLwire(w, r)      // … and so are the field names gob and json match by
+		ruleCDC15c(w, r)
 	})
 }
 
@@ -114,6 +118,7 @@ func init() {
 		ruleGRDorphan(w, r)         // a live vector that no search can reach is missing from every result
 		ruleLCK10(w, r)             // search returns only live ids
 		ruleGRDverbatimHybrid(w, r) // the filter of a hybrid query is evaluated as written
+		ruleTBLwire(w, r)           // a tombstone written by an earlier build is still a tombstone: the names in the snapshot format stay
 	})
 }
 
@@ -146,6 +151,8 @@ func init() {
 		ruleJRN5(w, r)         // a link request that names an inverse relation is not acknowledged from a look at the forward edge alone
 		ruleCDC15(w, r)        // history survives restart: a record applied twice adds no version
 		ruleGRDrevAppend(w, r) // the two views agree at every instant
+		ruleGRDshardhash(w, r) // a snapshot written by another build shows the same edges: the node placement function is part of the format
+		ruleCDC15c(w, r)       // replayed link/unlink records keep distinct identities
 	})
 	register("C11", "graph queries compute exact bounded reachability and shortest paths", func(w *World, r *Report) {
 		ruleGRDbfs(w, r, []bfsSpec{{"pkg/engine", "Engine.resolveGraphFilter", 5}, {"pkg/engine", "Engine.VExtractSubgraph", 5}, {"pkg/engine", "Engine.FindPath", 0}}, "GRD-bfs")
@@ -163,6 +170,7 @@ func init() {
 		ruleCDC10(w, r)         // the cascade names each neighbour by the node id it takes out of the graph id
 		ruleGRDcascadeAll(w, r) // every edge of the deleted node is unlinked, whatever its other end is
 		ruleLCK7emit(w, r)      // a panic in the delete's event emission would skip the cascade
+		ruleCDC15c(w, r)        // a second deletion of a re-added id is repaired like the first: replay dates its repairs per record
 	})
 }
 
@@ -188,6 +196,7 @@ func init() {
 		ruleGRDpathExhausted(w, r) // every call returns in bounded time
 		ruleGRDchancap(w, r)       // every call returns in bounded time
 		ruleORD9(w, r)             // lost updates: a snapshot does not miss an operation that is between journal and apply
+		ruleLCKcopy(w, r)          // a lock that is copied excludes nobody
 	})
 }
 
@@ -228,6 +237,7 @@ func init() {
 		ruleLCK10(w, r)                                                                      // a deleted document does not come back into the text index
 		ruleGRDreindex(w, r)                                                                 // document counts and lengths always equal those of the current corpus
 		ruleWEBverbatimAlpha(w, r)                                                           // alpha = 0 orders purely by text relevance, also over HTTP
+		ruleTBLstatwidth(w, r)                                                               // the statistics hold what they count: no counter of the text index narrower than 32 bits
 	})
 	register("C15", "memory decay and reinforcement obey their stated laws", func(w *World, r *Report) {
 		ruleTBLmodels(w, r)
@@ -272,6 +282,7 @@ func init() {
 		ruleGRDslice(w, r)     // the request-driven filter parser never slices out of range
 		ruleGRDalloc(w, r)     // no request-controlled integer sizes an allocation unchecked
 		ruleWEB10(w, r)        // no raw request string becomes a metric label (WithLabelValues panics on invalid UTF-8)
+		ruleGRDlogarg(w, r)    // no NaN in a response: a negative count never reaches a logarithm (a NaN cannot be JSON-encoded: 200 with an empty body)
 		ruleEFFcreate(w, r)    // a create answered 409 leaves the index that owns the name untouched
 		ruleGRDdimension(w, r) // the wrong-dimension guard cannot be switched off by deleting one vector
 		ruleGRDlevelmult(w, r) // m = 1 in a create request must not wedge the index
@@ -351,5 +362,6 @@ func init() {
 		ruleGRDlevelmult(w, r)        // the level multiplier is finite
 		ruleGRDtombstoneStorage(w, r) // a restart re-attaches the vector of every tombstone
 		ruleGRDnoQueryShortcut(w, r)  // a stored vector is retrieved by its own value, also the zero vector
+		ruleGRDtrainedEnsure(w, r)    // a quantized index searches on trained codes: training is retried until it has succeeded
 	})
 }
